@@ -1,5 +1,6 @@
 import Mieru.Model.Tamper
 import Mieru.Model.Arq
+import Mieru.Model.TamperKey
 /-!
 # The packet transport's receive path, end to end (Props/C04, packet section)
 
@@ -14,12 +15,9 @@ replay cache, the source-address test of a client, the user-ownership test, a fu
 namespace Mieru.Tamper
 open Mieru
 
-/-- the identity fields of a metadata block (`metaIds`): protocol type, session id, sequence number -/
-structure Ids where
-  proto : Nat
-  sid : Nat
-  seq : Nat
-deriving DecidableEq, Repr
+-- `Ids` (the identity fields of a metadata block, `metaIds`: protocol type, session id, sequence number)
+-- is the structure of `Mieru.Model.TamperKey` (same namespace; the two halves of C04 were written in
+-- parallel and had each declared it).
 
 /-- protocol types a client / a server session lets through the first check of `Session.input`
     (pkg/protocol/session.go; tied to the source by `C04.direction_filter_is_the_codes`) -/
